@@ -249,12 +249,13 @@ impl Report {
         }
     }
     pub fn violation(&mut self, sig: impl Into<String>, detail: impl Into<String>, replay: impl Into<String>) {
-        if self.violations.len() < 50 {
-            self.violations.push(Violation {
-                sig: sig.into(),
-                detail: detail.into(),
-                replay: replay.into(),
-            });
+        // Keep at most three witnesses per signature so that one frequent
+        // violation cannot hide a different one.
+        let sig = sig.into();
+        let same = self.violations.iter().filter(|v| v.sig == sig).count();
+        *self.counters.entry("violation_reports_total".into()).or_insert(0) += 1;
+        if same < 3 && self.violations.len() < 300 {
+            self.violations.push(Violation { sig, detail: detail.into(), replay: replay.into() });
         }
     }
     pub fn to_json(&self) -> Json {
